@@ -24,7 +24,7 @@
 (* Everything is a sequence / record so that the same operators evaluate   *)
 (* catalogue cases (MC_Links) and cases recorded from the real code (JSON).*)
 (*                                                                         *)
-(* P-layer: PFold / Expected* - the declarative rule the user relies on.   *)
+(* P-layer: PStep / PEnd / PInts - the declarative rule the user relies on.  *)
 (* I-layer: BeginLink / TryMatch / EndLink / WriteBack / FindMissing - the *)
 (* steps of ApplyLinks.run_molecule with the iteration order of the        *)
 (* matches of one link left nondeterministic, the in-place updates         *)
@@ -206,9 +206,8 @@ PStep(c, acc, k) ==
       calls |-> acc.calls \cup { [li |-> k, phi |-> j.phi, out |-> j.out] : j \in IF Prefilter(c, l) THEN J ELSE {} },
       \* domain: the link's own effects do not change the outcome of its own vetoes (else the order of its matches would matter)
       stable |-> acc.stable /\ \A j \in J : Outcome(c, l, j.phi, j.iv, V2) = j.out]
-RECURSIVE PFold(_, _)
-PFold(c, k) == IF k = 0 THEN [V |-> V0(c), app |-> {}, calls |-> {}, stable |-> TRUE] ELSE PStep(c, PFold(c, k - 1), k)
-PEnd(c) == PFold(c, Len(c.links))
+\* fold over the links in definition order (FoldLeft iterates; a recursive definition overflows TLC's stack on force fields with > 50 links)
+PEnd(c) == FoldLeft(LAMBDA acc, k : PStep(c, acc, k), [V |-> V0(c), app |-> {}, calls |-> {}, stable |-> TRUE], [k \in 1..Len(c.links) |-> k])
 
 \* atoms removed by `replace atomname null` of an applicable link
 PRemoved(c, app) == UNION { DelImg(c.links[x.li], x.iv) : x \in app }
